@@ -467,4 +467,334 @@ Proof.
     rewrite <- wfin_wfinal. destruct P5 as [[A _]|[[A _]|[A _]]]; rewrite A, ?Ea; auto.
 Qed.
 
+(** ** Runs from states without both-changed conflicts *)
+
+Lemma inv_final_lookup (s : state) (W : work) : HashOk s -> Fresh s -> Inv s (keys s) W ->
+  forall x, wA W !! x = expected s x /\ wB W !! x = expected s x /\ wC W !! x = Hh <$> expected s x.
+Proof.
+  intros Hok F [_ _ In Id _ Io] x.
+  destruct (conflict_name_dec Hh dge cname s x) as [[[p l] E]|N].
+  - cbn in E. rewrite (expected_name Hh dge cname _ _ _ _ F E). apply (In p); [|exact E].
+    eapply (conflict_key Hh dge cname), E.
+  - rewrite (expected_other Hh dge cname) by exact N. destruct (decide (x ∈ keys s)) as [Hx|Hx].
+    + apply Id, Hx.
+    + rewrite (fin_out Hh dge cname kle _ _ Hx). apply Io; [exact Hx|]. intros p l _. apply N.
+Qed.
+
+Lemma no_conflict_fresh (r : state) : (forall p, conflict r p = None) -> Fresh r.
+Proof. intros Hnc. split; intros *; rewrite Hnc; discriminate. Qed.
+
+(** no both-changed path: the run ends with exit status 0 and both trees equal to
+    the per-path results, recorded *)
+Lemma run_no_conflicts (r : state) (T : gmap K content) :
+  HashOk r -> (forall p, conflict r p = None) -> (forall x, fin r x = T !! x) ->
+  (bisync_run r).1.1 = {| tA := T; tB := T; arch := Some (Hh <$> T) |} /\ (bisync_run r).1.2 = ExitOk.
+Proof.
+  intros Hok Hnc HT. pose proof (no_conflict_fresh r Hnc) as F.
+  rewrite (run_result Hh dge cname kle r Hok F). cbn [fst snd].
+  assert (L : forall x, expected r x = T !! x).
+  { intros x. rewrite (expected_other Hh dge cname); [apply HT|]. intros p l. rewrite Hnc. discriminate. }
+  split.
+  - f_equal; [| |f_equal]; apply map_eq; intros x; rewrite ?lookup_fmap;
+      destruct (run_lookup Hh dge cname kle r Hok F x) as (Ra & Rb & Rc); rewrite ?Ra, ?Rb, ?Rc, L; reflexivity.
+  - destruct (final_inv Hh dge cname kle r Hok F) as [_ Ic _ _ _ _].
+    destruct (decide (wConf (wfinal r) = 0)) as [Z|NZ]; [reflexivity|].
+    apply Ic in NZ as (p & _ & Hp). rewrite Hnc in Hp. congruence.
+Qed.
+
+(** the result of a completed run, as one tree *)
+Lemma run_state_final (s : state) : HashOk s -> Fresh s ->
+  run_state s = {| tA := wA (wfinal s); tB := wA (wfinal s); arch := Some (Hh <$> wA (wfinal s)) |}.
+Proof.
+  intros Hok F. unfold BisyncStepsProofs.run_state. rewrite (run_result Hh dge cname kle s Hok F). cbn [fst].
+  f_equal; [|f_equal]; apply map_eq; intros x; rewrite ?lookup_fmap;
+    destruct (run_lookup Hh dge cname kle s Hok F x) as (Ra & Rb & Rc); rewrite ?Ra, ?Rb, ?Rc; reflexivity.
+Qed.
+
+(** both trees already final (a crash inside the archive save): whatever the
+    record is - the old one, none, the new one - the re-run only records the tree *)
+Lemma run_equal_trees (r : state) (T : gmap K content) : tA r = T -> tB r = T ->
+  (bisync_run r).1.1 = {| tA := T; tB := T; arch := Some (Hh <$> T) |} /\ (bisync_run r).1.2 = ExitOk.
+Proof.
+  intros Ea Eb. apply run_no_conflicts.
+  - intros p x y Ha Hb _. congruence.
+  - intros p. apply conflict_equal_none. congruence.
+  - intros x. unfold BisyncProofs.fin. rewrite Ea, Eb. apply final_content_same.
+Qed.
+
+(** a second run after a completed one *)
+Lemma rerun_final (s : state) : HashOk s -> Fresh s ->
+  run_state (run_state s) = run_state s /\ (bisync_run (run_state s)).1.2 = ExitOk.
+Proof.
+  intros Hok F. unfold BisyncStepsProofs.run_state. destruct (bisync_run s) as [[s' e] pl] eqn:R. cbn [fst].
+  destruct (run_idempotent Hh dge cname kle s s' e pl Hok F R) as [_ ->]. auto.
+Qed.
+
+(** ** The stale window: a one-sided, recorded leftover of the loser
+
+    [leftover s r sd q l]: [r] is [s] plus the content [l] at path [q] on side [sd]
+    only.  With [q] absent from both trees of [s] but recorded with [l]'s digest the
+    plan of [r] holds "propagate the delete of [q]" for side [sd]. *)
+Definition leftover (s r : state) (sd : side) (q : K) (l : content) : Prop :=
+  arch r = arch s /\
+  (forall x, x <> q -> tA r !! x = tA s !! x /\ tB r !! x = tB s !! x) /\
+  side_tree sd r !! q = Some l /\ side_tree (other sd) r !! q = None.
+
+Definition delw (sd : side) (q : K) (w : work) : work :=
+  match sd with
+  | SA => {| wA := delete q (wA w); wB := wB w; wC := delete q (wC w); wConf := wConf w; wErr := false |}
+  | SB => {| wA := wA w; wB := delete q (wB w); wC := delete q (wC w); wConf := wConf w; wErr := false |}
+  end.
+
+(** two work states that differ at most at path [q] *)
+Definition agree_off (q : K) (w w' : work) : Prop :=
+  wErr w' = wErr w /\ wConf w' = wConf w /\
+  forall x, x <> q -> wA w' !! x = wA w !! x /\ wB w' !! x = wB w !! x /\ wC w' !! x = wC w !! x.
+
+Definition at_q (q : K) (w : work) : option content * option content * option D :=
+  (wA w !! q, wB w !! q, wC w !! q).
+
+Lemma work_eq (w w' : work) : wErr w' = wErr w -> wConf w' = wConf w ->
+  (forall x, wA w' !! x = wA w !! x /\ wB w' !! x = wB w !! x /\ wC w' !! x = wC w !! x) -> w' = w.
+Proof. destruct w, w'; cbn. intros -> -> L. f_equal; apply map_eq; intros x; apply L. Qed.
+
+Lemma apply_ext (a b a' b' : gmap K D) (w : work) p act :
+  a !! p = a' !! p -> b !! p = b' !! p -> apply a b w (p, act) = apply a' b' w (p, act).
+Proof. intros Ea Eb. unfold Bisync.apply. destruct (wErr w); [reflexivity|]. destruct act; rewrite ?Ea, ?Eb; reflexivity. Qed.
+
+Lemma kstep_lo (s r : state) sd q l (w : work) x : leftover s r sd q l -> x <> q -> kstep r w x = kstep s w x.
+Proof.
+  intros (Ez & Ex & _) N. destruct (Ex x N) as [Ea Eb].
+  unfold BisyncProofs.kstep, BisyncProofs.act_at. rewrite Ea, Eb, Ez.
+  destruct (rpath _ _ _) as [act|]; [|reflexivity].
+  apply apply_ext; unfold Bisync.scan; rewrite !lookup_fmap; congruence.
+Qed.
+
+Lemma foldl_kstep_lo (s r : state) sd q l (w : work) lst : leftover s r sd q l -> q ∉ lst ->
+  foldl (kstep r) w lst = foldl (kstep s) w lst.
+Proof. intros Lo. revert w; induction lst as [|x lst IH]; intros w Hq; cbn [foldl]; [reflexivity|].
+  apply not_elem_of_cons in Hq as [Hx Hq]. rewrite (kstep_lo s r sd q l) by (assumption || congruence). apply IH, Hq. Qed.
+
+Lemma kstep_lo_q (s r : state) sd q l (w : work) :
+  leftover s r sd q l -> base_at (arch s) q = Some (Hh l) -> wErr w = false ->
+  kstep r w q = delw sd q w.
+Proof.
+  intros (Ez & _ & E1 & E2) Hz He.
+  unfold BisyncProofs.kstep, BisyncProofs.act_at. rewrite Ez, Hz.
+  destruct sd; cbn [side_tree other] in E1, E2; rewrite E1, E2; cbn [fmap option_fmap option_map rpath];
+    rewrite decide_True by reflexivity; unfold Bisync.apply; rewrite He; reflexivity.
+Qed.
+
+Lemma agree_refl q (w : work) : agree_off q w w.
+Proof. split; [reflexivity|]. split; [reflexivity|]. auto. Qed.
+
+(** a step for a key other than [q] whose conflict name is not [q] neither reads
+    nor writes [q] *)
+Lemma kstep_frame (s : state) dn (w w' : work) x q :
+  HashOk s -> Fresh s -> Inv s dn w -> x ∈ keys s -> x ∉ dn -> agree_off q w w' ->
+  x <> q -> (forall l, conflict s x <> Some (q, l)) ->
+  agree_off q (kstep s w x) (kstep s w' x) /\ at_q q (kstep s w' x) = at_q q w'.
+Proof.
+  intros Hok F [Ie _ _ _ It _] Hk Hd (Ae & Ac & Ax) Nq Nc.
+  destruct (Ax x Nq) as (XA & XB & XC).
+  assert (Hq : forall q' l, conflict s x = Some (q', l) -> q' <> x)
+    by (intros q' l E; exact (fresh_name_ne Hh dge cname _ _ _ _ F E)).
+  destruct (It x Hk Hd) as [(HA & HB & HC)|(l & Hn & HA & HB & HC)].
+  - destruct (kstep_effect Hh dge cname s w x Hok Hq Hk Ie HA HB (or_introl HC)) as (E1 & E2 & E3).
+    destruct (kstep_effect Hh dge cname s w' x Hok Hq Hk) as (E1' & E2' & E3'); [congruence..|left; congruence|].
+    split.
+    + split; [congruence|]. split; [rewrite E2, E2', Ac; reflexivity|]. intros y Ny.
+      destruct (E3 y) as (-> & -> & ->). destruct (E3' y) as (-> & -> & ->).
+      destruct (Ax y Ny) as (YA & YB & YC). unfold upd.
+      destruct (conflict s x) as [[q' l']|]; cbn; repeat case_decide; auto.
+    + unfold at_q. destruct (E3' q) as (-> & -> & ->). unfold upd.
+      destruct (conflict s x) as [[q' l']|] eqn:Ec; cbn.
+      * assert (q <> q') by (intros ->; exact (Nc _ eq_refl)). rewrite !decide_False by congruence. reflexivity.
+      * rewrite !decide_False by congruence. reflexivity.
+  - destruct (kstep_named Hh dge cname s w x l Hn Hk Ie HA HB HC) as (E1 & E2 & E3).
+    destruct (kstep_named Hh dge cname s w' x l Hn Hk) as (E1' & E2' & E3'); [congruence..|].
+    split.
+    + split; [congruence|]. split; [congruence|]. intros y Ny.
+      destruct (E3 y) as (-> & -> & ->). destruct (E3' y) as (-> & -> & ->). apply Ax, Ny.
+    + unfold at_q. destruct (E3' q) as (-> & -> & ->). reflexivity.
+Qed.
+
+(** the conflict step of the path whose conflict name is [q] overwrites [q] *)
+Lemma kstep_merge (s : state) dn (w w' : work) p q l :
+  HashOk s -> Fresh s -> Inv s dn w -> p ∈ keys s -> p ∉ dn -> agree_off q w w' ->
+  conflict s p = Some (q, l) -> kstep s w' p = kstep s w p.
+Proof.
+  intros Hok F [Ie _ _ _ It _] Hk Hd (Ae & Ac & Ax) Ec.
+  pose proof (fresh_name_ne Hh dge cname _ _ _ _ F Ec) as Np.
+  destruct (Ax p ltac:(congruence)) as (XA & XB & XC).
+  assert (Hq : forall q' l', conflict s p = Some (q', l') -> q' <> p)
+    by (intros q' l' E; exact (fresh_name_ne Hh dge cname _ _ _ _ F E)).
+  destruct (It p Hk Hd) as [(HA & HB & HC)|(l1 & Hn & _)].
+  2: { rewrite (name_ok_not_conflict Hh dge cname _ _ _ Hn) in Ec. discriminate. }
+  destruct (kstep_effect Hh dge cname s w p Hok Hq Hk Ie HA HB (or_introl HC)) as (E1 & E2 & E3).
+  destruct (kstep_effect Hh dge cname s w' p Hok Hq Hk) as (E1' & E2' & E3'); [congruence..|left; congruence|].
+  apply work_eq; [congruence|rewrite E2, E2', Ac; reflexivity|]. intros y.
+  destruct (E3 y) as (-> & -> & ->). destruct (E3' y) as (-> & -> & ->). unfold upd. rewrite Ec. cbn.
+  destruct (decide (y = q)) as [->|Ny]; [auto|]. destruct (decide (y = p)); [auto|]. apply Ax, Ny.
+Qed.
+
+Lemma fold_frame (s : state) q p0 : HashOk s -> Fresh s -> (exists l0, conflict s p0 = Some (q, l0)) ->
+  forall todo dn (w w' : work), NoDup todo ->
+  (forall x, x ∈ todo -> x ∈ keys s /\ x ∉ dn /\ x <> q /\ x <> p0) -> dn ⊆ keys s ->
+  Inv s dn w -> agree_off q w w' ->
+  Inv s (list_to_set todo ∪ dn) (foldl (kstep s) w todo) /\
+  agree_off q (foldl (kstep s) w todo) (foldl (kstep s) w' todo) /\
+  at_q q (foldl (kstep s) w' todo) = at_q q w'.
+Proof.
+  intros Hok F (l0 & E0) todo. induction todo as [|x todo IH]; intros dn w w' Hnd Hin Hsub Iv Ag; cbn [foldl list_to_set].
+  - rewrite (left_id_L ∅ (∪)). auto.
+  - apply NoDup_cons in Hnd as [Hx Hnd]. destruct (Hin x ltac:(left)) as (Hxk & Hxd & Hxq & Hxp).
+    assert (Nc : forall l, conflict s x <> Some (q, l)).
+    { intros l E. apply Hxp. eapply (proj2 F); eauto. }
+    destruct (kstep_frame s dn w w' x q Hok F Iv Hxk Hxd Ag Hxq Nc) as [Ag1 Aq1].
+    replace ({[x]} ∪ list_to_set todo ∪ dn) with (list_to_set todo ∪ ({[x]} ∪ dn)) by set_solver.
+    destruct (IH ({[x]} ∪ dn) (kstep s w x) (kstep s w' x)) as (I2 & Ag2 & Aq2).
+    + exact Hnd.
+    + intros y Hy. destruct (Hin y ltac:(right; exact Hy)) as (Hyk & Hyd & Hyq & Hyp).
+      split; [exact Hyk|]. split; [|auto].
+      intros [Hy'|Hy']%elem_of_union; [|contradiction]. apply elem_of_singleton in Hy'. subst y. contradiction.
+    + intros y [Hy|Hy]%elem_of_union; [apply elem_of_singleton in Hy; subst y; exact Hxk|apply Hsub, Hy].
+    + apply (inv_step Hh dge cname kle); assumption.
+    + exact Ag1.
+    + split; [exact I2|]. split; [exact Ag2|]. rewrite Aq2. exact Aq1.
+Qed.
+
+(** The run from a state with a stale, recorded, one-sided leftover [l] at the
+    conflict name [q] of the both-changed path [p0]: every path but [q] ends as in
+    the run without the leftover; [q] itself ends as there (the loser on both sides,
+    recorded) if [q] comes before [p0] in plan order, and otherwise holds the loser
+    on the OTHER side only, unrecorded. *)
+Lemma stale_rerun (s r : state) sd p0 q l :
+  HashOk s -> Fresh s -> conflict s p0 = Some (q, l) -> q ∉ keys s -> base_at (arch s) q = Some (Hh l) ->
+  leftover s r sd q l ->
+  wErr (wfinal r) = false /\
+  (forall x, x <> q -> wA (wfinal r) !! x = expected s x /\ wB (wfinal r) !! x = expected s x /\
+                        wC (wfinal r) !! x = Hh <$> expected s x) /\
+  (at_q q (wfinal r) = (Some l, Some l, Some (Hh l)) \/
+   at_q q (wfinal r) = match sd with SA => (None, Some l, None) | SB => (Some l, None, None) end).
+Proof.
+  intros Hok F E0 Hq Hz Lo.
+  pose proof Lo as (Ez & Ex & Es1 & Es2).
+  pose proof (conflict_key Hh dge cname _ _ _ _ E0) as Hp0k.
+  assert (Kr : forall x, x ∈ keys r <-> x = q \/ x ∈ keys s).
+  { intros x. rewrite !elem_of_keys. destruct (decide (x = q)) as [->|N].
+    - split; [auto|]. intros _. destruct sd; cbn in Es1; rewrite Es1; eauto.
+    - destruct (Ex x N) as [-> ->]. split; [auto|]. intros [?|?]; [contradiction|assumption]. }
+  set (L := plan_keys kle (scan (tA r)) (scan (tB r))).
+  assert (HL : forall x, x ∈ L <-> x = q \/ x ∈ keys s).
+  { intros x. rewrite <- Kr, <- (plan_keys_scan Hh kle r), elem_of_list_to_set. reflexivity. }
+  pose proof (NoDup_plan_keys kle (scan (tA r)) (scan (tB r))) as HndL. fold L in HndL.
+  destruct (elem_of_list_split L q) as (L1 & L2 & EL); [apply HL; auto|].
+  rewrite EL in HndL. apply NoDup_app in HndL as (Hnd1 & Hdis & Hnd2). apply NoDup_cons in Hnd2 as [HqL2 Hnd2].
+  assert (HqL1 : q ∉ L1). { intros Hin. apply (Hdis q Hin). left. }
+  assert (H1q : forall x, x ∈ L1 -> x <> q) by (intros x Hx ->; contradiction).
+  assert (H2q : forall x, x ∈ L2 -> x <> q) by (intros x Hx ->; contradiction).
+  assert (H1k : forall x, x ∈ L1 -> x ∈ keys s).
+  { intros x Hx. destruct (proj1 (HL x)) as [?|?]; [rewrite EL; set_solver|exfalso; eapply H1q; eauto|assumption]. }
+  assert (H2k : forall x, x ∈ L2 -> x ∈ keys s).
+  { intros x Hx. destruct (proj1 (HL x)) as [?|?]; [rewrite EL; set_solver|exfalso; eapply H2q; eauto|assumption]. }
+  assert (H12 : forall x, x ∈ L1 -> x ∉ L2).
+  { intros x Hx Hx2. apply (Hdis x Hx). right. exact Hx2. }
+  assert (H3 : forall x, x ∈ keys s -> x ∈ L1 \/ x ∈ L2).
+  { intros x Hx. assert (x <> q) by (intros ->; contradiction). assert (Hin : x ∈ L) by (apply HL; auto).
+    rewrite EL in Hin. set_solver. }
+  assert (EW : wfinal r = foldl (kstep s) (kstep r (foldl (kstep s) (w0 r) L1) q) L2).
+  { unfold BisyncProofs.wfinal. fold L. rewrite EL, foldl_app. cbn [foldl].
+    rewrite (foldl_kstep_lo s r sd q l _ L1 Lo HqL1). apply (foldl_kstep_lo s r sd q l _ L2 Lo HqL2). }
+  assert (A0 : agree_off q (w0 s) (w0 r)).
+  { split; [reflexivity|]. split; [reflexivity|]. intros x N. cbn [BisyncProofs.w0 wA wB wC].
+    destruct (Ex x N) as [-> ->]. split; [reflexivity|]. split; [reflexivity|].
+    destruct (decide (x ∈ keys s)) as [Hk|Hk].
+    - rewrite (c0_lookup_in Hh r x) by (apply Kr; auto). rewrite (c0_lookup_in Hh s x Hk), Ez. reflexivity.
+    - rewrite (c0_lookup_out Hh cname kle r x), (c0_lookup_out Hh cname kle s x Hk); [reflexivity|].
+      intros [?|?]%Kr; contradiction. }
+  assert (Q0 : at_q q (w0 r) = match sd with SA => (Some l, None, Some (Hh l)) | SB => (None, Some l, Some (Hh l)) end).
+  { unfold at_q. cbn [BisyncProofs.w0 wA wB wC]. rewrite (c0_lookup_in Hh r q) by (apply Kr; auto). rewrite Ez, Hz.
+    destruct sd; cbn [side_tree other] in Es1, Es2; rewrite Es1, Es2; reflexivity. }
+  set (dn := list_to_set L1 ∪ ∅ : gset K).
+  assert (Edn : list_to_set L2 ∪ dn = keys s).
+  { apply set_eq. intros x. split.
+    - intros [Hx|Hx]%elem_of_union; [apply elem_of_list_to_set in Hx; apply H2k, Hx|]. apply H1k. unfold dn in Hx. set_solver.
+    - intros Hx. destruct (H3 x Hx); unfold dn; set_solver. }
+  destruct (decide (p0 ∈ L1)) as [Hp1|Hp1].
+  - (* the conflict name comes after its path *)
+    assert (Ew1 : foldl (kstep s) (w0 r) L1 = foldl (kstep s) (w0 s) L1).
+    { destruct (elem_of_list_split L1 p0 Hp1) as (La & Lb & ELa).
+      assert (HLa : forall x, x ∈ La -> x ∈ L1) by (intros x Hx; rewrite ELa; set_solver).
+      pose proof Hnd1 as Hnd1'. rewrite ELa in Hnd1' |- *.
+      apply NoDup_app in Hnd1' as (Hnda & Hdisa & _).
+      rewrite !foldl_app. cbn [foldl].
+      destruct (fold_frame s q p0 Hok F (ex_intro _ l E0) La ∅ (w0 s) (w0 r)) as (Ia & Aa & _).
+      + exact Hnda.
+      + intros x Hx. split; [apply H1k, HLa, Hx|]. split; [set_solver|]. split; [apply H1q, HLa, Hx|].
+        intros ->. apply (Hdisa p0 Hx). left.
+      + set_solver.
+      + apply (inv_init Hh dge cname kle).
+      + exact A0.
+      + rewrite (kstep_merge s (list_to_set La ∪ ∅) _ _ p0 q l Hok F Ia Hp0k); [reflexivity| |exact Aa|exact E0].
+        intros Hin. apply (Hdisa p0); [set_solver|left]. }
+    rewrite Ew1 in EW. set (wc := foldl (kstep s) (w0 s) L1) in *.
+    assert (Ic : Inv s dn wc).
+    { apply (fold_inv Hh dge cname kle s Hok F L1 ∅ (w0 s)); [exact Hnd1| |set_solver|apply (inv_init Hh dge cname kle)].
+      intros x Hx. split; [apply H1k, Hx|set_solver]. }
+    pose proof Ic as [Ec _ Inm _ _ _].
+    rewrite (kstep_lo_q s r sd q l wc Lo Hz Ec) in EW.
+    assert (Ad : agree_off q wc (delw sd q wc)).
+    { split; [destruct sd; cbn; congruence|]. split; [destruct sd; reflexivity|].
+      intros x N. destruct sd; cbn; rewrite ?lookup_delete_ne by congruence; auto. }
+    assert (Qd : at_q q (delw sd q wc) = match sd with SA => (None, Some l, None) | SB => (Some l, None, None) end).
+    { destruct (Inm p0 q l) as (Qa & Qb & _); [unfold dn; set_solver|exact E0|].
+      unfold at_q. destruct sd; cbn; rewrite !lookup_delete, ?Qa, ?Qb; reflexivity. }
+    destruct (fold_frame s q p0 Hok F (ex_intro _ l E0) L2 dn wc (delw sd q wc)) as (If & Af & Qf).
+    + exact Hnd2.
+    + intros x Hx. split; [apply H2k, Hx|]. split; [|split; [apply H2q, Hx|]].
+      * intros Hin. apply (H12 x); [unfold dn in Hin; set_solver|exact Hx].
+      * intros ->. exact (H12 p0 Hp1 Hx).
+    + intros x Hx. apply H1k. unfold dn in Hx. set_solver.
+    + exact Ic.
+    + exact Ad.
+    + rewrite <- EW in Af, Qf. rewrite Edn in If. pose proof If as [Ef _ _ _ _ _].
+      destruct Af as (Ae & _ & Ax).
+      split; [congruence|]. split.
+      * intros x N. destruct (Ax x N) as (-> & -> & ->). apply (inv_final_lookup s _ Hok F If).
+      * right. rewrite Qf. exact Qd.
+  - (* the conflict name comes before its path: the planned delete removes the
+       leftover, the conflict re-creates the copy on both sides *)
+    destruct (fold_frame s q p0 Hok F (ex_intro _ l E0) L1 ∅ (w0 s) (w0 r)) as (I1 & A1 & Q1).
+    + exact Hnd1.
+    + intros x Hx. split; [apply H1k, Hx|]. split; [set_solver|]. split; [apply H1q, Hx|]. intros ->. contradiction.
+    + set_solver.
+    + apply (inv_init Hh dge cname kle).
+    + exact A0.
+    + fold dn in I1. set (w1 := foldl (kstep s) (w0 s) L1) in *. set (w1' := foldl (kstep s) (w0 r) L1) in *.
+      pose proof I1 as [E1 _ _ _ _ Io1].
+      destruct A1 as (Ae1 & Ac1 & Ax1).
+      rewrite (kstep_lo_q s r sd q l w1' Lo Hz) in EW by congruence.
+      assert (Em : delw sd q w1' = w1).
+      { rewrite Q0 in Q1. unfold at_q in Q1.
+        destruct (Io1 q Hq) as (Oa & Ob & Oc).
+        { intros p l' Hp E. assert (p = p0) by (eapply (proj2 F); eauto). subst p. apply Hp1.
+          unfold dn in Hp. set_solver. }
+        apply work_eq.
+        - destruct sd; cbn; congruence.
+        - destruct sd; cbn; congruence.
+        - intros x. destruct (decide (x = q)) as [->|N].
+          + rewrite Oa, Ob, Oc. destruct sd; injection Q1 as Q1a Q1b Q1c; cbn; rewrite !lookup_delete, ?Q1a, ?Q1b; auto.
+          + destruct (Ax1 x N) as (Xa & Xb & Xc). destruct sd; cbn; rewrite ?lookup_delete_ne by congruence; auto. }
+      rewrite Em in EW.
+      assert (If : Inv s (list_to_set L2 ∪ dn) (wfinal r)).
+      { rewrite EW. apply (fold_inv Hh dge cname kle s Hok F L2 dn w1); [exact Hnd2| | |exact I1].
+        - intros x Hx. split; [apply H2k, Hx|]. intros Hin. apply (H12 x); [unfold dn in Hin; set_solver|exact Hx].
+        - intros x Hx. apply H1k. unfold dn in Hx. set_solver. }
+      rewrite Edn in If. pose proof If as [Ef _ _ _ _ _].
+      split; [exact Ef|]. split; [intros x _; apply (inv_final_lookup s _ Hok F If)|]. left.
+      unfold at_q. destruct (inv_final_lookup s _ Hok F If q) as (-> & -> & ->).
+      rewrite (expected_name Hh dge cname _ _ _ _ F E0). reflexivity.
+Qed.
+
 End R.
